@@ -74,12 +74,27 @@ def to_gen_forest(fj):
 ALTBIT = 1 << 40       # a DIE of the dwz alt file is identified by its offset with this bit set
 
 
+def gen_attrs(fj):
+    """DIE id -> [(attribute code, form code)] as the generator stores them (cross-file references are GNU_ref_alt)."""
+    g = to_gen_forest(fj)
+    out = {}
+    def walk(d):
+        out[d["id"]] = [(a["name"], FORMC[a["form"]]) for a in d["attrs"]]
+        for c in d["children"]:
+            walk(c)
+    for u in g["units"] + g.get("alt_units", []):
+        walk(u["root"])
+    return out
+
+
 class Built:
     def __init__(self, path, offs):
         self.path = path
         self.off = {int(k[4:]): v for k, v in offs.items() if k.startswith("die_")}
         self.off.update({int(k[8:]): v | ALTBIT for k, v in offs.items() if k.startswith("alt_die_")})
         self.unit_off = {int(k[5:]): v for k, v in offs.items() if k.startswith("unit_")}
+        nmain = len(self.unit_off)      # the units of the alt file follow those of the main file
+        self.unit_off.update({nmain + int(k[9:]): v for k, v in offs.items() if k.startswith("alt_unit_")})
         self.rev = {v: k for k, v in self.off.items()}
 
 
